@@ -20,6 +20,11 @@ RULE = ('breadth-first search over canonical quiescent states of a two-watcher d
 ASSUMPTIONS = ['rm --nostop is excluded (C15 documents that exemption)']
 
 
+class _Sink(object):
+    def __call__(self, data):
+        pass
+
+
 def scenarios(tier):
     out = [Scenario('acct', pat='obedient', hook=None, fault=None, tier=tier),
            Scenario('acct', pat='first-stubborn', hook=None, fault=None, tier=tier)]
@@ -36,6 +41,10 @@ def scenarios(tier):
         out.append(Scenario('acct', pat='obedient', hook=None, fault=[j, c], tier=tier))
     out.append(Scenario('acct', pat='obedient', hook=None, fault=[3, 1, 'RuntimeError'], tier=tier))
     out.append(Scenario('acct', pat='slow', hook=None, fault=None, tier=tier, tick=0.3))
+    # both watchers capture their workers' output: the pipes (and the loop handlers registered for their descriptor
+    # numbers) come and go with the workers, and a descriptor number is reused by the next worker of either watcher
+    for pat in ('first-stubborn', 'stubborn'):
+        out.append(Scenario('acct', pat=pat, hook=None, fault=None, tier=tier, streams=True))
     return out
 
 
@@ -81,8 +90,13 @@ def run(scn, ch):
         if scn.hook:
             name, outcome, k = scn.hook
             opts['hooks'] = {name: (nth_hook(world, k, outcome), False)}
+        bopts = {}
+        if scn.p.get('streams'):
+            opts['stdout_stream'] = {'stream': _Sink()}
+            opts['stderr_stream'] = {'stream': _Sink()}
+            bopts['stdout_stream'] = {'stream': _Sink()}
         specs = [WSpec('a', behaviours=pattern(scn.pat), **opts),
-                 WSpec('b', numprocesses=1, graceful_timeout=G)]
+                 WSpec('b', numprocesses=1, graceful_timeout=G, **bopts)]
         world.specs = {s.name: s for s in specs}
         world.spec_list = specs
         if scn.fault:
